@@ -41,7 +41,8 @@ FINGERPRINTS = [
     ("src/core/config_parser.py", ["parse_config_file", "parse_pyproject_toml", "parse_yaml", "parse_json", "_normalize_config_keys"]),
     ("src/linter_config/loader.py", ["load_config", "get_defaults"]),
     ("src/linter_config/ignore.py", ["_load_repo_ignores", "_parse_config_file", "_extract_ignore_patterns", "is_ignored"]),
-    ("src/orchestrator/core.py", ["__init__", "lint_file", "_safe_check_rule", "FileLintContext"]),
+    ("src/orchestrator/core.py", ["__init__", "lint_file", "_safe_check_rule", "FileLintContext", "_lint_file_worker", "lint_files_parallel"]),
+    ("src/api.py", ["Linter"]),
     ("src/core/linter_utils.py", ["load_linter_config", "get_metadata"]),
     ("src/core/base.py", ["MultiLanguageLintRule"]),
     ("src/core/python_lint_rule.py", ["PythonOnlyLintRule"]),
@@ -118,6 +119,17 @@ def discovery():
     src = ast.unparse(f)
     if len(names) != 2 or "if not config_path.exists():" not in src or "self.config = self.config_loader.load(config_path)" not in src:
         raise Unsupported(f"Orchestrator.__init__: unexpected discovery shape {names}")
+    # a configuration handed in (by --config through the parallel workers, by Linter(config_file=...)) is used as it is, an
+    # empty one included: discovery only runs when none was given
+    given = [n for n in ast.walk(f) if isinstance(n, ast.If) and ast.unparse(n.test) == "config is not None"
+             and len(n.body) == 1 and ast.unparse(n.body[0]) == "self.config = config" and n.orelse]
+    if len(given) != 1:
+        raise Unsupported("Orchestrator.__init__: a given configuration is no longer used unconditionally (`if config is not None`)")
+    w = ast.unparse(find_func(parse("src/orchestrator/core.py"), "_lint_file_worker"))
+    a = ast.unparse(_func_in_class("src/api.py", "Linter", "__init__"))
+    if "Orchestrator(project_root=project_root, config=config)" not in w or \
+            "self.config = self.config_loader.load(config_path)" not in a or "Orchestrator(project_root=self.project_root, config=self.config)" not in a:
+        raise Unsupported("worker / Linter: the loaded configuration is no longer handed to the Orchestrator")
     g = find_func(parse("src/linter_config/loader.py"), "load_config")
     gs = ast.unparse(g)
     fb = [_const_str(n.right) for n in ast.walk(g) if isinstance(n, ast.BinOp) and isinstance(n.op, ast.Div) and ast.unparse(n.left) == "config_path.parent"]
